@@ -112,6 +112,7 @@ class Interp:
         self.objects = plan["objects"]
         self.live = {}
         self.inputs = {}
+        self.argmut = None
         self.cursors = {}  # cursor id -> {"it": iterator, "pos": items taken so far, "done": bool}
 
     # -- construction
@@ -195,7 +196,18 @@ class Interp:
             if opname == "__obs__":
                 return None, dumps(self.observe(objname))
             rargs = [self.resolve(a) for a in args]
-            res = ops.invoke(kind, opname, obj, rargs)
+            # the caller's own argument values (containers and freshly built library objects that are not tracked as
+            # live operands): quiet structural form before the call ...
+            self.argmut = None
+            before = [cjson(x) for x in rargs]
+            try:
+                res = ops.invoke(kind, opname, obj, rargs)
+            finally:
+                # ... and after it, whether it returned or raised
+                after = [cjson(x) for x in rargs]
+                if after != before:
+                    i = next(j for j in range(len(before)) if before[j] != after[j])
+                    self.argmut = {"i": i, "before": before[i][:300], "after": after[i][:300]}
         except Exception as e:
             return None, dumps(canon(e))
         return res, cjson(res)
@@ -397,6 +409,8 @@ def world_main(plan):
             res = None
         else:
             res, ans = it.answer(st["obj"], st["op"], st.get("args", []))
+            if it.argmut:
+                rec["argmut"] = it.argmut
         rec["ans"] = ans
         for f in set(fams.values()):
             fam_version[f] = fam_version.get(f, 0) + 1
